@@ -300,6 +300,9 @@ func init() {
 		et := fn.Signature.Results().At(0).Type().Underlying().(*types.Slice).Elem()
 		return sliceV{abs: &absSlice{length: ln, capa: ln, elemT: et}}, false
 	}
+	V["verifNumString"] = func(ex *Exec, th *Thread, fn *ssa.Function, a []Value) (Value, bool) {
+		return ex.symNum(a[0].(*Term), true), false
+	}
 	V["verifIteString"] = func(ex *Exec, th *Thread, fn *ssa.Function, a []Value) (Value, bool) {
 		c := a[0].(*Term)
 		if c.IsConst() {
